@@ -65,9 +65,14 @@ def regenerate_extracted():
     return True, "", changed
 
 
-def lake_build(targets):
+def lake_build(targets, exe_copy=None):
+    """`lake build` under the project lock; the freshly built driver is copied (still under the lock) to
+    `exe_copy`, so that a concurrent build of another check cannot pull it away while this check runs"""
     with Lock(os.path.join(BUILD, "lake.lock")):
         rc, out, dt = sh(["lake", "build"] + targets, cwd=LEAN, timeout=3600)
+        if rc == 0 and exe_copy and os.path.exists(MODEL_EXE):
+            os.makedirs(os.path.dirname(exe_copy), exist_ok=True)
+            shutil.copy2(MODEL_EXE, exe_copy)
     return rc, out, dt
 
 
@@ -160,9 +165,9 @@ def run_harness(exe, seed, tier, outdir, timeout, extra_args=()):
     return rc, out, dt
 
 
-def run_model(ops_path, model_path):
+def run_model(ops_path, model_path, exe=None):
     with open(ops_path, "rb") as fin, open(model_path, "wb") as fout:
-        p = subprocess.run([MODEL_EXE], stdin=fin, stdout=fout, stderr=subprocess.PIPE, timeout=3600)
+        p = subprocess.run([exe or MODEL_EXE], stdin=fin, stdout=fout, stderr=subprocess.PIPE, timeout=3600)
     return p.returncode, p.stderr.decode("utf-8", "replace")
 
 
@@ -183,7 +188,7 @@ def diff_suite(ops_path, impl_path, model_path, context=12):
     return None
 
 
-def run_suites(prop, h, exe, seed, tier, outdir, timeout):
+def run_suites(prop, h, exe, seed, tier, outdir, timeout, model_exe=None):
     """runs one harness executable and its model suites; returns dict"""
     res = {"harness": h["name"], "seed": seed, "tier": tier, "fails": [], "diffs": [], "crash": None, "stats": {}, "suites": {}}
     rc, out, dt = run_harness(exe, seed, tier, outdir, timeout)
@@ -207,7 +212,7 @@ def run_suites(prop, h, exe, seed, tier, outdir, timeout):
             name = os.path.basename(ops)[:-4]
             impl = os.path.join(outdir, name + ".impl")
             model = os.path.join(outdir, name + ".model")
-            mrc, merr = run_model(ops, model)
+            mrc, merr = run_model(ops, model, model_exe)
             nlines = sum(1 for _ in open(ops, errors="replace")) - 1
             res["suites"][name] = nlines
             if mrc != 0:
@@ -293,7 +298,8 @@ def check(pid, tier, seed):
     proof_broken = None
     if not okx:
         proof_broken = {"stage": "extract", "message": msgx}
-    rc, out, dt = lake_build(prop["modules"] + ["momo_model"])
+    model_exe = os.path.join(BUILD, pid, "momo_model")
+    rc, out, dt = lake_build(prop["modules"] + ["momo_model"], exe_copy=model_exe)
     log.append("lake build %s: rc=%d %.1fs" % (" ".join(prop["modules"]), rc, dt))
     if rc != 0:
         errs = [l for l in out.split("\n") if l.startswith("error")][:12]
@@ -327,7 +333,7 @@ def check(pid, tier, seed):
                 compile_errors.append({"harness": h["name"], "cmd": ccmd, "errors": "\n".join([l for l in cout.split("\n") if "error" in l][:10]) or cout[-1500:]})
             else:
                 exes.append((h, exe))
-    model_ok = os.path.exists(MODEL_EXE) and rc == 0
+    model_ok = os.path.exists(model_exe) and rc == 0
     if exes and model_ok:
         with concurrent.futures.ThreadPoolExecutor(max_workers=8) as ex:
             futs = []
@@ -335,7 +341,7 @@ def check(pid, tier, seed):
                 seeds = [seed] if tier == "quick" else [seed, seed + 1000003]
                 for s in seeds:
                     od = os.path.join(tier_dir, "out-%s-%d" % (h["name"], s))
-                    futs.append(ex.submit(run_suites, prop, h, exe, s, tier, od, h.get("timeout_" + tier, 900 if tier == "quick" else 3000)))
+                    futs.append(ex.submit(run_suites, prop, h, exe, s, tier, od, h.get("timeout_" + tier, 900 if tier == "quick" else 3000), model_exe))
             results = [f.result() for f in futs]
 
     # --- classify
